@@ -615,6 +615,31 @@ Definition cs_subs (m : list (id * expr)) (s : cs) : cs :=
   let '(g, t) := s in
   (map (fun p => (node_subs m (fst p), map (fun e => (node_subs m (fst e), subs_map m (snd e))) (snd p))) g, t).
 
+(* CompartmentalSystem.subs with its node order.  The method substitutes the rates in place, then calls
+   nx.relabel_nodes(cb._g, {comp: comp.subs(...) for comp in _comps(self._g)}, copy=False).
+   - every compartment changes: no key is a value, the nodes are relabelled in NODE order (each goes to the
+     end in turn, so the relative order is kept);
+   - at most one compartment changes: only that one moves (to the end), whatever the processing order;
+   - otherwise (two or more change, one or more unchanged) keys and values overlap and networkx processes
+     the entries in reversed topological order of a graph built from the items of a dict whose order is the
+     iteration order of a SET of compartments, i.e. it depends on the string hash seed: not determined. *)
+Definition subs_rates (m : list (id * expr)) (g : graph) : graph :=
+  map (fun p => (fst p, map (fun e => (fst e, subs_map m (snd e))) (snd p))) g.
+Definition subs_changed (m : list (id * expr)) (g : graph) : list comp :=
+  filter (fun c => negb (comp_eqb (comp_subs m c) c)) (comps g).
+Definition subs_order_determined (m : list (id * expr)) (g : graph) : bool :=
+  Nat.eqb (length (subs_changed m g)) (length (comps g)) || (length (subs_changed m g) <=? 1).
+
+(* relabel the given old nodes, in the given order *)
+Definition relabel_olds (m : list (id * expr)) (olds : list node) (g : graph) : graph :=
+  fold_left (fun acc old => let new := node_subs m old in
+                            if node_eqb new old then acc
+                            else if has_node acc old then relabel1 acc old new else acc) olds g.
+
+(* the result when the order is determined (changed compartments processed in node order) *)
+Definition cs_subs_exact (m : list (id * expr)) (s : cs) : cs :=
+  let '(g, t) := s in (relabel_olds m (nodes g) (subs_rates m g), t).
+
 (* ---- guards -------------------------------------------------------------------------------------- *)
 Definition no_self_loop (g : graph) : bool :=
   forallb (fun p => negb (has_edge g (fst p) (fst p))) g.
